@@ -24,7 +24,10 @@ from harness.core import CaseResult, Fail
 from refmodel import delta
 
 LD = np.longdouble
-K_STIFF, C_DAMP = -40.0, -3.0
+# neither coefficient nor the two step sizes is representable in single precision (a value silently
+# squeezed through float32 somewhere in a double-precision run must show)
+K_STIFF, C_DAMP = -41.7, -3.1
+DT_A, DT_B = 0.23, 0.11
 
 
 def ref_weights(dim, shape, dx, pos, shift=None):
@@ -168,7 +171,7 @@ class System:
             b.inter.compute_flow_forces_and_torques()
             self.ref_evaluate(b, spread=False)
         elif kind in ("Ta", "Tb"):
-            dt = 0.25 if kind == "Ta" else 0.125
+            dt = DT_A if kind == "Ta" else DT_B
             b.inter.time_step(dt=dt)
             b.ref_integral = b.ref_integral + LD(dt) * b.ref_last_mismatch
             b.ref_time += dt
